@@ -76,6 +76,20 @@ Proof. destruct s as [[[c m] v]|]; reflexivity. Qed.
 Lemma gq_smv_fin s : g_smv_fin Qar s = mv_fin (mv_of s).
 Proof. destruct s as [[[c m] v]|]; reflexivity. Qed.
 
+Lemma gq_sbounds s x : g_sbounds_step Qar s x = bounds_step s x.
+Proof. reflexivity. Qed.
+Lemma gq_sbounds_fin s : g_sbounds_fin s = bounds_fin s.
+Proof. reflexivity. Qed.
+Lemma gq_stat s x : (let '((sb, sm), y) := g_stat_step Qar s x in ((sb, mv_of sm), y)) = stat_step (fst s, mv_of (snd s)) x.
+Proof. destruct s as [[a b] [[[c m] v]|]]; reflexivity. Qed.
+Lemma gq_stat_fin s : g_stat_fin Qar s = stat_fin (fst s, mv_of (snd s)).
+Proof. destruct s as [[[a|] [b|]] [[[c m] v]|]]; reflexivity. Qed.
+Lemma gq_smean_fin s : g_smean_fin s = mean_fin s.
+Proof. reflexivity. Qed.
+Lemma gq_last s x : g_last_sink s x = last_sink s x.
+Proof. reflexivity. Qed.
+Lemma gq_collect s x : g_collect_step s x = collect_step s x.
+Proof. reflexivity. Qed.
 Lemma gq_smin s x : g_smin_step Qar s x = min_step s x.
 Proof. reflexivity. Qed.
 Lemma gq_smax s x : g_smax_step Qar s x = max_step s x.
